@@ -7,6 +7,7 @@ import (
 	"crypto/sha1"
 	"encoding/json"
 	"fmt"
+	"github.com/DrmagicE/gmqtt/config"
 	"io"
 	"math/rand"
 	"net"
@@ -23,13 +24,18 @@ import (
 
 // Case is one segmentation of the reference stream.
 type Case struct {
-	Kind   string // aligned | fixed | onecut | random | packed | empties
-	V      byte
-	K      int   `json:",omitempty"` // chunk size / cut position
-	Cuts   []int `json:",omitempty"` // explicit cut positions
-	Sizes  []int // payload sizes of the publishes
-	Seed   int64 `json:",omitempty"`
+	Kind  string // aligned | fixed | onecut | random | packed | empties
+	V     byte
+	K     int   `json:",omitempty"` // chunk size / cut position
+	Cuts  []int `json:",omitempty"` // explicit cut positions
+	Sizes []int // payload sizes of the publishes
+	Seed  int64 `json:",omitempty"`
+	// MaxPkt: run against the broker configured with this max_packet_size. The limit is about MQTT packets;
+	// a WebSocket message carrying several packets may be longer.
+	MaxPkt int `json:",omitempty"`
 }
+
+const limitedMaxPkt = 1600
 
 type stream struct {
 	bytes    []byte
@@ -373,6 +379,15 @@ func genCases(r *monitor.Run) []Case {
 	for _, total := range []int{1025, 2049, 3073} {
 		cs = append(cs, Case{Kind: "onecut", V: 4, K: total, Sizes: []int{5000}})
 	}
+	// restrictive max_packet_size: every packet fits, the WebSocket messages do not
+	for _, v := range []byte{4, 5} {
+		cs = append(cs, Case{Kind: "onecut", V: v, K: 1 << 30, Sizes: sizesB, MaxPkt: limitedMaxPkt}, // the whole stream in one message
+			Case{Kind: "packed", V: v, K: 1, Sizes: []int{1500, 1400, 1500, 0, 1500, 1500}, MaxPkt: limitedMaxPkt},
+			Case{Kind: "packed", V: v, K: 2, Sizes: []int{1500, 1400, 1500, 0, 1500, 1500}, MaxPkt: limitedMaxPkt},
+			Case{Kind: "aligned", V: v, Sizes: []int{1500, 1, 1500}, MaxPkt: limitedMaxPkt},
+			Case{Kind: "fixed", V: v, K: 1601, Sizes: []int{1500, 1400, 1500}, MaxPkt: limitedMaxPkt},
+			Case{Kind: "fixed", V: v, K: 4000, Sizes: []int{1500, 1400, 1500, 1500}, MaxPkt: limitedMaxPkt})
+	}
 	n := r.Pick(80, 1500)
 	for i := 0; i < n; i++ {
 		kind := "random"
@@ -396,6 +411,12 @@ func Run(r *monitor.Run) {
 		return
 	}
 	defer b.Stop(10 * time.Second)
+	bl, err := broker.Start(broker.Options{WS: true, Cfg: func(c *config.Config) { c.MQTT.MaxPacketSize = limitedMaxPkt }})
+	if err != nil {
+		r.Inconclusive(err.Error())
+		return
+	}
+	defer bl.Stop(10 * time.Second)
 	cs := genCases(r)
 	// differential sanity: the reference stream over TCP produces the expected dialogue
 	for i, c := range []Case{cs[0], cs[1]} {
@@ -406,7 +427,12 @@ func Run(r *monitor.Run) {
 	}
 	r.Parallel(len(cs), 12, func(i int) {
 		c := &cs[i]
-		sig, what, obs := runCase(b, c, i)
+		bb := b
+		if c.MaxPkt != 0 {
+			bb = bl
+			r.Count("cases_with_restrictive_max_packet_size", 1)
+		}
+		sig, what, obs := runCase(bb, c, i)
 		r.Eval(1)
 		if sig == "harness" {
 			r.Inconclusive(what)
@@ -441,7 +467,11 @@ func Replay(r *monitor.Run, detail []byte) {
 		fmt.Println("replay:", err)
 		return
 	}
-	b, err := broker.Start(broker.Options{WS: true})
+	b, err := broker.Start(broker.Options{WS: true, Cfg: func(c *config.Config) {
+		if d.Case.MaxPkt != 0 {
+			c.MQTT.MaxPacketSize = uint32(d.Case.MaxPkt)
+		}
+	}})
 	if err != nil {
 		fmt.Println("replay:", err)
 		return
